@@ -1,7 +1,7 @@
 (* C16 — hz-generated router code registers exactly the routes declared in the IDL. *)
 From Coq Require Import String.
 From Coq Require Import List Strings.Byte NArith Bool Arith Permutation.
-Require Import Bytes Show HzRouter HzProofs.
+Require Import Bytes Show HzRouter HzProofs HzInterp.
 Import ListNotations.
 
 (* `build` is RouterNode.Update (FindNearest + Insert + Sort) folded over the declared methods,
@@ -42,6 +42,27 @@ Theorem C16_update_adds_one_route : forall sortr paths h n pre, paths <> [] ->
               ((pre ++ [n_path n] ++ map (cons sl) paths, h) :: flat pre n).
 Proof. exact update_adds. Qed.
 Print Assumptions C16_update_adds_one_route.
+
+
+(* the whole translation, end to end on the model: for EVERY list of declarations whose paths have
+   no empty interior segment, running the generated Register body (Go block scoping, hertz group and
+   path joining; `interp` with any sufficient fuel) succeeds — no undefined or redeclared variable —
+   and registers exactly the declared routes: one registration per declaration, with its verb,
+   its own path, its handler and one middleware per path element, the root group's first *)
+Theorem C16_generated_program_registers_exactly_the_declared_routes : forall sortr alias (ds : list decl) ss,
+  (forall d, In d ds -> clean (split_path (d_path d)) /\ split_path (d_path d) <> []) ->
+  emit_root (build sortr alias ds) = Some ss ->
+  exists rs e' F, (forall F', F <= F' -> interp F' ss env0 = Some (rs, e')) /\
+    Permutation (map key_of_reg rs) (map key_of_route (map (route_of alias) ds)) /\
+    Forall (fun r => exists t, r_chain r = B "rootMw" :: t) rs.
+Proof. exact generated_program_registers_the_declared_routes. Qed.
+Print Assumptions C16_generated_program_registers_exactly_the_declared_routes.
+
+Theorem C16_key_of_a_declaration : forall alias d q, d_path d = sl :: q ->
+  key_of_route (route_of alias d) =
+  (http_method (d_verb d), sl :: q, alias ++ B "." ++ d_name d, S (length (split_path (sl :: q)))).
+Proof. exact key_of_declared. Qed.
+Print Assumptions C16_key_of_a_declaration.
 
 Example C16_nonvacuous :
   hz_router [B "0"; B "GET"; B "/a"; B "GetA"; B "POST"; B "/a/b-c/:id"; B "PostAB"; B "Any"; B "/a/b_c/*rest"; B "AnyR"] =
